@@ -198,7 +198,9 @@ def catalogue():
                                              "B": dict(quantile=0.7, fit_intercept=False, delta=0.001, max_iter=20)}
     add("KMeansL1L2", "cluster", {
         "A": lambda: M.KMeansL1L2(n_clusters=2, norm="L1", random_state=0, n_init=2),
-        "B": lambda: M.KMeansL1L2(n_clusters=3, norm="L2", random_state=1, n_init=1, init="random")},
+        "B": lambda: M.KMeansL1L2(n_clusters=3, norm="L2", random_state=1, n_init=1, init="random"),
+        "C": lambda: M.KMeansL1L2(n_clusters=2, norm="L1", random_state=0, n_init=3,
+                                  init=numpy.array(data("cluster", 0)["X"][[0, 5]], copy=True))},
         strs={"norm": ["L1", "L2"], "init": ["k-means++", "random"]})
     add("ConstraintKMeans", "cluster", {
         "A": lambda: M.ConstraintKMeans(n_clusters=2, strategy="distance", random_state=0, n_init=2, max_iter=20),
